@@ -106,12 +106,16 @@ def _check(ctx, case):
     traces = _leak(case, sub, 0)
     key = np.array(case['key'], dtype='uint8')
     N = pts.shape[0]
-    ths = dist.ram_ths(samples=traces, plaintext=pts, ciphertext=cts, key=np.tile(key, (N, 1)))
+    decoys = {}
+    if case.get('decoy_data'):
+        # the trace set also carries an unrelated metadata field literally called 'data' (all metadata is handed to the selection function)
+        decoys['data'] = np.roll(pts, 3, axis=1) ^ 0xA5
+    ths = dist.ram_ths(samples=traces, plaintext=pts, ciphertext=cts, key=np.tile(key, (N, 1)), **decoys)
     cont = scared.Container(ths)
     mod = getattr(aes_sf if cipher == 'aes' else des_sf, ns)
     sf = getattr(mod, cls)(words=words if attack not in ('tdpa',) else words[0])
     labels = ['cipher:%s' % cipher, 'attack:' + attack, 'target:%s.%s' % (cipher, name), 'model:' + case['model'], 'keysize:%d' % len(key), 'batch:%s' % (case['batch_size'] or 'default'), 'prec:' + case['precision'],
-              'offset:%g' % case.get('offset', 0.0), 'convergence_step:%s' % (case.get('convergence_step') or 'none')] + (['constant_sample'] if case.get('const_sample') else [])
+              'offset:%g' % case.get('offset', 0.0), 'convergence_step:%s' % (case.get('convergence_step') or 'none')] + (['constant_sample'] if case.get('const_sample') else []) + (['decoy_data_field'] if case.get('decoy_data') else []) + (['partial_partitions'] if case.get('partial_partitions') and attack in ('anova', 'nicv', 'snr') and case['model'] == 'hw' else [])
     nclass = {'hw': (9 if cipher == 'aes' else (7 if 'AddRoundKey' in name else 5)), 'value': (256 if cipher == 'aes' else 16)}.get(case['model'], 2)
     kw = dict(selection_function=sf, model=_scared_model(case), precision=case['precision'])
     if case.get('convergence_step') and attack != 'tstatic':
@@ -148,7 +152,10 @@ def _check(ctx, case):
     elif attack == 'dpa':
         a = scared.DPAAttack(discriminant=getattr(scared, case['discriminant']), **kw)
     elif attack in ('anova', 'nicv', 'snr'):
-        a = getattr(scared, attack.upper() + 'Attack')(discriminant=getattr(scared, case['discriminant']), partitions=range(nclass), **kw)
+        parts = range(nclass)
+        if case.get('partial_partitions') and case['model'] == 'hw':
+            parts = range(1, nclass - 1)      # the two rarest Hamming-weight classes are not declared: their traces must simply be ignored
+        a = getattr(scared, attack.upper() + 'Attack')(discriminant=getattr(scared, case['discriminant']), partitions=parts, **kw)
     elif attack == 'mia':
         a = scared.MIAAttack(discriminant=getattr(scared, case['discriminant']), partitions=range(nclass), bin_edges=[float(case.get('offset', 0.0)) - 0.5 + i for i in range(nclass + 1)], **kw)
     else:
@@ -165,7 +172,7 @@ def _check(ctx, case):
         a = scared.TemplateDPAAttack(container_building=scared.Container(bths), reverse_selection_function=rsf, partitions=range(nclass), **kw)
         must(case, 'TemplateDPAAttack.build', a.build)
         traces = _leak(case, states[:, [w0]], 0)
-        ths = dist.ram_ths(samples=traces, plaintext=pts, ciphertext=cts, key=np.tile(key, (N, 1)))
+        ths = dist.ram_ths(samples=traces, plaintext=pts, ciphertext=cts, key=np.tile(key, (N, 1)), **decoys)
         cont = scared.Container(ths)
         words = [w0]
     must(case, '%s attack run' % attack, a.run, cont)
@@ -244,7 +251,8 @@ def cases(draw, cipher, attack):
             'precision': draw(st.sampled_from(['float32', 'float64'])), 'tdtype': draw(st.sampled_from(['float32', 'float64'])),
             'batch_size': draw(st.sampled_from([0, 0, 100, 37, 300])), 'noise_seed': draw(st.integers(0, 2 ** 32)),
             'offset': draw(st.sampled_from([0.0, 0.0, 3.0, 20.0])), 'convergence_step': draw(st.sampled_from([0, 0, 50, 100, 120])),
-            'const_sample': draw(st.booleans()) and attack in ('cpa', 'anova', 'nicv', 'snr', 'dpa')}
+            'const_sample': draw(st.booleans()) and attack in ('cpa', 'anova', 'nicv', 'snr', 'dpa'),
+            'decoy_data': draw(st.booleans()), 'partial_partitions': draw(st.booleans())}
     if attack == 'tdpa':
         case['profiling_plaintexts'] = g.integers(0, 256, size=(600, blk)).astype('uint8')
     return case
